@@ -96,6 +96,16 @@ def section(kind, n, body="ctx", src="git"):
         hh2 = b"@@ -123456,%d +123456,%d @@ fn deep()" % (sum(1 for l in bl if l[:1] in b" -"),
                                                          sum(1 for l in bl if l[:1] in b" +"))
         lines = [d, b"index 1111111..2222222 100644", b"--- a/" + f, b"+++ b/" + f, hh2] + bl
+    elif kind in ("conflict3", "conflict2"):
+        # combined diff of an unresolved merge: a conflict region in diff3 style (with the common ancestor) or
+        # in the default two-way style
+        bl = [b"  a", b"++<<<<<<< HEAD", b" +ours"]
+        if kind == "conflict3":
+            bl += [b"++||||||| base", b"++anc"]
+        bl += [b"++=======", b"+ theirs", b"++>>>>>>> branch", b"  z"]
+        lines = [b"diff --cc " + f, b"index 1111111,2222222..0000000", b"--- a/" + f, b"+++ b/" + f,
+                 b"@@@ -1,3 -1,3 +1,9 @@@"] + bl
+        info.update(event="combined", hunk_lines=bl)
     elif kind == "binary_noindex":
         # `git diff --no-index x y` of two binary files: the diff line names two different paths and
         # there are no ---/+++ lines
